@@ -47,9 +47,13 @@ def _may_raise(ex, classes, lineno):
 
 @external("yaml.safe_load")
 def _x_yaml_safe_load(ex, args, kwargs, lineno):
-    """yaml.safe_load(text) -> arbitrary dynamic value (None, scalar, list, dict); raises yaml.YAMLError."""
-    ex.ufs_used.add("yaml.safe_load returns an arbitrary value or raises YAMLError")
+    """yaml.safe_load(text_or_file) -> an arbitrary dynamic value (None, scalar, list, dict) that is a FUNCTION of the
+    argument (`uf.yaml_doc`: the document of that text / file handle); raises yaml.YAMLError."""
+    ex.ufs_used.add("yaml.safe_load returns an arbitrary value (a function of its argument) or raises YAMLError")
     _may_raise(ex, ("YAMLError",), lineno)
+    a = args[0] if args else None
+    if a is not None and hasattr(a, "t") and not isinstance(a, VAny):
+        return VAny(z3.Function("uf.yaml_doc", a.t.sort(), ValSort)(a.t))
     return VAny(z3.Const(fresh_name("yaml_doc"), ValSort))
 
 
